@@ -2720,6 +2720,12 @@ func (r *Runtime) getIterator(obj Value, method func(FunctionCall) Value) *itera
 			next = call
 		}
 	}
+	if next == nil {
+		// Not an error yet: it should only be thrown when (and if) next() is called
+		next = func(FunctionCall) Value {
+			panic(r.NewTypeError("iterator.next is missing or not a function"))
+		}
+	}
 
 	return &iteratorRecord{
 		iterator: iter,
